@@ -1005,3 +1005,98 @@ func VerifC05StartJoinPregel() { c05Check(c05StartJoin(), false, 0, 6, []string{
 func VerifC05StartJoinDAG()    { c05Check(c05StartJoin(), true, 0, 6, []string{"a", "b", "x"}) }
 func VerifC06StartJoinPregel() { c05Mode = 6; c05Check(c05StartJoin(), false, 0, 6, []string{"a", "b", "x"}) }
 func VerifC06StartJoinDAG()    { c05Mode = 6; c05Check(c05StartJoin(), true, 0, 6, []string{"a", "b", "x"}) }
+
+// Eager (Workflow) runs in which an interrupt-after node, a node asking for a rerun, a join over two lanes and a
+// node with a control-only dependency complete in every order the scheduler allows (one deviation from the
+// deterministic schedule): the resumed run finishes with the uninterrupted result, nothing lost or run twice.
+//
+//	START -> A, Z, B ; A2 <- A, Z (join) ; X depends on Z (control only, data from START) ; END <- A2, B, X
+func c05EagerMix() {
+	ctx := context.Background()
+	vcfg("delaybound", 1+vtier())
+	vcfg("selectfirst", 1)
+	afterA := vchoose("afterA", 2) == 1
+	rerunB := vchoose("rerunB", 2) == 1
+	if !afterA && !rerunB {
+		return
+	}
+	in0 := map[string]any{"in": vsymInt("x")}
+	build := func(log *vLog, interrupts bool, store CheckPointStore, attempts *int) (Runnable[map[string]any, map[string]any], error) {
+		mk := func(k string) *Lambda {
+			return InvokableLambda(func(ctx context.Context, in map[string]any) (map[string]any, error) {
+				vyield()
+				x := vFoldDeep(in)
+				log.add(k, x)
+				return map[string]any{k: vsymUF("f_"+k, x)}, nil
+			})
+		}
+		wf := NewWorkflow[map[string]any, map[string]any]()
+		wf.AddLambdaNode("A", mk("A")).AddInput(START)
+		wf.AddLambdaNode("Z", mk("Z")).AddInput(START)
+		wf.AddLambdaNode("B", InvokableLambda(func(ctx context.Context, in map[string]any) (map[string]any, error) {
+			vMu.Lock()
+			*attempts++
+			first := *attempts == 1
+			vMu.Unlock()
+			if interrupts && rerunB && first {
+				return nil, InterruptAndRerun
+			}
+			x := vFoldDeep(in0)
+			log.add("B", x)
+			return map[string]any{"B": vsymUF("f_B", x)}, nil
+		})).AddInput(START)
+		wf.AddLambdaNode("A2", mk("A2")).AddInput("A", ToField("a")).AddInput("Z", ToField("z"))
+		wf.AddLambdaNode("X", mk("X")).AddInputWithOptions(START, nil, WithNoDirectDependency()).AddDependency("Z")
+		wf.End().AddInput("A2", ToField("a2")).AddInput("B", ToField("b")).AddInput("X", ToField("x"))
+		var opts []GraphCompileOption
+		if interrupts {
+			opts = append(opts, WithCheckPointStore(store))
+			if afterA {
+				opts = append(opts, WithInterruptAfterNodes([]string{"A"}))
+			}
+		}
+		return wf.Compile(ctx, opts...)
+	}
+	logI, logU := &vLog{}, &vLog{}
+	store := &vStore{m: map[string][]byte{}}
+	attI, attU := 0, 0
+	ru, err := build(logU, false, nil, &attU)
+	vassert(err == nil, "twin compiles")
+	vcfgPush := 0
+	_ = vcfgPush
+	wantOut, wantErr := ru.Invoke(ctx, in0)
+	vassert(wantErr == nil, "uninterrupted run succeeds")
+	ri, err := build(logI, true, store, &attI)
+	vassert(err == nil, "workflow compiles")
+	var out map[string]any
+	finished := false
+	for call := 0; call < 5 && !finished; call++ {
+		var rerr error
+		out, rerr = ri.Invoke(ctx, in0, WithCheckPointID("mix"))
+		if rerr == nil {
+			finished = true
+			break
+		}
+		_, ok := ExtractInterruptInfo(rerr)
+		a5(ok, "eager mix: the (resumed) run does not fail with a non-interrupt error, whatever the completion order")
+		a6(ok, "eager mix: only interrupt errors")
+		if !ok {
+			return
+		}
+	}
+	vquiesce()
+	a5(finished, "eager mix: the run completes after resuming")
+	a5(c02DeepEq(out, wantOut), "eager mix: same output as the uninterrupted run")
+	for _, n := range []string{"A", "Z", "B", "A2", "X"} {
+		a, b := logI.of(n), logU.of(n)
+		a5(len(a) == len(b), "eager mix: node "+n+" completes as often as in the uninterrupted run")
+		for i := range a {
+			if i < len(b) {
+				a5(a[i] == b[i], "eager mix: node "+n+" sees the same input as in the uninterrupted run")
+			}
+		}
+	}
+}
+
+func VerifC05EagerMix() { c05EagerMix() }
+func VerifC06EagerMix() { c05Mode = 6; c05EagerMix() }
